@@ -2,6 +2,7 @@ package props
 
 import (
 	"go/token"
+	"go/types"
 	"sort"
 	"strings"
 
@@ -142,6 +143,16 @@ func C02(p *engine.Prog, r *engine.Report) {
 	r.Check(strings.Join(sb, ">") == strings.Join(sv, ">") && len(sb) >= 5, "C02-R3", "ProposeBlock vs validateBlock|order of check-state effects", p.Pos(pb.Pos()), strings.Join(sb, " > "), "builder: "+strings.Join(sb, " > ")+"; validator: "+strings.Join(sv, " > ")+" — the two paths read/mutate the check state in a different order (e.g. reward context taken after vs before the transactions)")
 	// prepareBlockRewardCtx arguments: proposer address, same state, height, prev
 	r.Floor("C02-R3", 1, "sequence")
+	// ---------------- R4: in-memory memos on transactions
+	c02R4(p, r)
+	// ---------------- R5: both sides work from the header and parent they are given, not from this node's head
+	var ents []*ssa.Function
+	for _, n := range []string{"Blockchain.filterTxs", "Blockchain.processTxs", "Blockchain.validateBlock", "Blockchain.applyBlockOnState", "Blockchain.calculateFlags", "Blockchain.prepareBlockRewardCtx"} {
+		if f := mustFunc(p, r, "blockchain", n); f != nil {
+			ents = append(ents, f)
+		}
+	}
+	c01R6(p, r, "C02-R5", ents)
 }
 
 func c02R2(p *engine.Prog, r *engine.Report, ft, pt *ssa.Function) {
@@ -255,4 +266,99 @@ func c02R2(p *engine.Prog, r *engine.Report, ft, pt *ssa.Function) {
 	r.Check(a.gasAcc && b.gasAcc, "C02-R2", "filterTxs vs processTxs|gas = CalculateGas(tx) + receipt.GasUsed", p.Pos(ft.Pos()), "both", "block gas is accumulated differently on the two paths")
 	r.Check(strings.Join(a.conds, "; ") == strings.Join(b.conds, "; ") && len(a.conds) == 2, "C02-R2", "filterTxs vs processTxs|block gas conditions", p.Pos(ft.Pos()), strings.Join(a.conds, "; "), "builder stops at {"+strings.Join(a.conds, "; ")+"}, validator rejects at {"+strings.Join(b.conds, "; ")+"}: a block the builder considers full-but-valid is rejected (or vice versa)")
 	r.Floor("C02-R2", 5, "mode, min fee, apply, gas, conditions")
+}
+
+// c02R4: a transaction object carries in-memory memos that are not part of its wire form (the proposer
+// holds the mempool object with the memo set, every validator a freshly decoded one without it). A
+// validator may therefore skip on a memo hit only work whose outcome does not depend on the mutable
+// state: in the region that a hit skips, the state is read only through the accessors frozen below.
+var c02MemoStateReads = map[string]string{
+	"FlipWordsSeed": "constant within an epoch; the transaction's epoch is checked by ValidateTx before the type validator runs",
+}
+
+func c02R4(p *engine.Prog, r *engine.Report) {
+	n := 0
+	for _, f := range funcsOfPkg(p, "blockchain/validation") {
+		if f.Blocks == nil || isTestish(p.Pos(f.Pos())) {
+			continue
+		}
+		for _, iff := range engine.Ifs(f) {
+			c, neg := stripNot(iff.Cond)
+			call, ok := c.(*ssa.Call)
+			if !ok || call.Call.StaticCallee() == nil {
+				continue
+			}
+			cal := call.Call.StaticCallee()
+			// a memo read: a function of package types whose body loads an atomic/unserialised field of Transaction
+			if !strings.HasSuffix(engine.FuncName(cal), "types.IsValidLongSessionAnswers") && !isTxMemoRead(cal) {
+				continue
+			}
+			n++
+			miss := 1
+			if neg {
+				miss = 0
+			}
+			region := engine.ReachAvoiding(f, iff.Block().Succs[miss], nil, nil)
+			var bad []string
+			var appState ssa.Value
+			for _, par := range f.Params {
+				if nn := engine.NamedOf(par.Type()); nn != nil && nn.Obj().Name() == "AppState" {
+					appState = par
+				}
+			}
+			for b := range region {
+				for _, ins := range b.Instrs {
+					cc, ok := ins.(ssa.CallInstruction)
+					if !ok {
+						continue
+					}
+					for i, a := range cc.Common().Args {
+						if appState == nil {
+							break
+						}
+						if engine.Origin(a) == appState {
+							bad = append(bad, p.InstrPos(ins)+" passes the state to "+calleeShort(cc))
+						} else if i == 0 && rootOf(a) == appState {
+							if o := engine.CalleeObj(cc.Common()); o != nil {
+								if _, okRead := c02MemoStateReads[o.Name()]; !okRead {
+									bad = append(bad, p.InstrPos(ins)+" reads "+o.Name())
+								}
+							}
+						}
+					}
+				}
+			}
+			sort.Strings(bad)
+			r.Check(len(bad) == 0, "C02-R4", engine.RelName(f)+"|work skipped on a memo hit does not depend on mutable state", p.InstrPos(iff), "state read only through "+joinKeys(keysOf(c02MemoStateReads)), "a hit of the in-memory memo (set on the proposer's mempool object, absent on every validator's decoded copy) skips state-dependent checks: "+strings.Join(bad, "; ")+" — the proposer includes a transaction its validators reject")
+		}
+	}
+	r.Floor("C02-R4", 1, "validateSubmitLongAnswersTx")
+	_ = n
+}
+
+func keysOf(m map[string]string) map[string]bool {
+	o := map[string]bool{}
+	for k := range m {
+		o[k] = true
+	}
+	return o
+}
+
+// isTxMemoRead: f (package blockchain/types) takes a *Transaction and returns a bool computed from a Load of
+// one of its sync/atomic fields.
+func isTxMemoRead(f *ssa.Function) bool {
+	if f.Blocks == nil || !strings.Contains(engine.FuncName(f), "blockchain/types.") || f.Signature.Results().Len() != 1 {
+		return false
+	}
+	if b, ok := f.Signature.Results().At(0).Type().Underlying().(*types.Basic); !ok || b.Kind() != types.Bool {
+		return false
+	}
+	for _, c := range engine.Calls(f) {
+		if o := engine.CalleeObj(c.Common()); o != nil && o.Pkg() != nil && o.Pkg().Path() == "sync/atomic" && o.Name() == "Load" && len(c.Common().Args) > 0 {
+			if ow, _, ok := engine.FieldOf(c.Common().Args[0]); ok && ow == "Transaction" {
+				return true
+			}
+		}
+	}
+	return false
 }
